@@ -1280,7 +1280,12 @@ Op Gen::c16Op(int maxCells) {
     op.fn = FN_cellsToLinkedMultiPolygon;
     op.cells = cellSet(maxCells, op.tag);
     // (the rare very large sets get the error variants half of the time: "large AND invalid" must not be left to chance)
-    if (r.chance(op.tag.compare(0, 8, "isolated") == 0 ? 0.5 : 0.25)) {
+    if (op.tag.compare(0, 8, "isolated") == 0 && r.chance(0.5) && op.cells.size() > 2) {
+        // a very large set that is also invalid: an index whose base cell is out of range, somewhere after the first cell
+        size_t at = 1 + r.below(op.cells.size() - 1);
+        op.cells[at] = (op.cells[at] & ~((H3Index)0x7f << 45)) | ((H3Index)(122 + r.below(6)) << 45);
+        op.tag += "+invalid-index";
+    } else if (r.chance(0.25)) {
         switch (r.below(6)) {
             case 0:
                 if (!op.cells.empty()) {
